@@ -71,8 +71,13 @@ pub fn execute(prog: &Program, _kind: Kind, seed: u64, _fail_fast: bool, touch_y
     let ctx = interp::make_ctx(prog, false, touch_yield);
     let text = prog.text();
     let ctx2 = ctx.clone();
+    let lf2 = logfile.map(|s| s.to_string());
     std::thread::spawn(move || {
         std::thread::sleep(std::time::Duration::from_millis(8000));
+        if let Some(path) = lf2 {
+            if let Ok(f) = std::fs::File::create(&path) { let mut f = std::io::BufWriter::new(f); let _ = writeln!(f, "# watchdog");
+                for e in desync::verif::take_log().iter() { let _ = writeln!(f, "{}\t{}\t{}\t{}\t{}", e.task, e.kind, e.class, e.id, e.snap); } }
+        }
         let errs = ctx2.errors.lock().map(|e| e.clone()).unwrap_or_default();
         let detail = if errs.is_empty() { "no thread made progress for 8 s (blocked silently)".to_string() } else { errs[0].clone() };
         println!("RES\t0\t0\t{}\t{}\t0\t0\t{}\t{}", seed, if errs.is_empty() { "deadlock" } else { "monitor" }, text, detail);
